@@ -4,7 +4,7 @@ accumulateOp of the policy class they instantiate).  Necessary for "all algorith
 identical edge" and for the distance variants using (min, +1) everywhere."""
 import re
 
-from cfg import Graph
+from cfg import Graph, show_path
 from core import Finding, RuleResult
 from frontend import AnalysisBroken, where, base_name
 
@@ -127,4 +127,34 @@ def rule_dispatch(P):
     return R
 
 
-RULES = [rule_dispatch]
+def rule_split_complete(P):
+    """the per-level relation split is kept in the (cached) saturation operation: every iteration of fillSplit's level loop must
+    (re)define top_exactly[k], otherwise a later call on another relation fires events left over from an earlier one"""
+    R = RuleResult("dispatch.split-complete", "saturation_set_mtrel::fillSplit assigns top_exactly[k] on every path through its per-level loop (the split lives in the cached operation object and must be rebuilt completely for each relation)")
+    fs = [f for f in P.fns.values() if base_name(f["q"]) == M + "saturation_set_mtrel::fillSplit" and f.get("cfg")]
+    if len(fs) < 4:
+        raise AnalysisBroken("dispatch.split-complete: expected ≥4 instantiations of saturation_set_mtrel::fillSplit, found %d" % len(fs))
+    for f in sorted(fs, key=lambda f: f["inst"]):
+        g = Graph(f)
+        R.functions.add(f["inst"])
+        heads = [n for n in g.nodes if n.kind == "branch" and g.blocks[n.block].get("term") == "ForStmt" and len(n.succ) == 2]
+        sets = lambda n: n.kind == "call" and n.ev["q"].endswith("dd_edge::set") and "top_exactly[" in n.ev.get("recv", "")
+        outer = [h for h in heads if any(sets(g.nodes[i]) for i in g.reach([s for s, i in h.succ if i == 0]))]
+        if not outer:
+            raise AnalysisBroken("dispatch.split-complete: no loop of fillSplit assigns top_exactly[k]")
+        # the outermost such loop: the one whose body reaches the others
+        h = min(outer, key=lambda h: h.line or 0)      # the enclosing loop starts first in the source
+        body = [s for s, i in h.succ if i == 0][0]
+        R.paths += 1
+        p = None if sets(g.nodes[body]) else g.path(body, lambda n: n.id == h.id, avoid=sets)
+        iid = "%s: every iteration of the level loop assigns top_exactly[k]" % f["inst"].replace(M, "")[:100]
+        if p:
+            R.fail(iid, where(f, h.line), Finding(R.rule, f["file"], base_name(f["q"]), "top_exactly[k]",
+                   "an iteration of the per-level loop can finish without assigning top_exactly[k]: the entry keeps the part of a previous relation and later saturation calls fire stale events", h.line, show_path(p), inst=f["inst"]))
+        else:
+            R.ok(iid, where(f, h.line))
+    R.require_floor(4, "fillSplit instantiations")
+    return R
+
+
+RULES = [rule_dispatch, rule_split_complete]
